@@ -5,6 +5,8 @@ R1 variable pool: interval analysis of the integer arguments of every get_rand_v
 R2 split identity: split_in_two_random returns (min, max) of left and value - left.
 R3 alphabet: every literal character the generators can emit is accepted by the tokenizer.
 R4 positive complexity: interval of the returned complexity under default parameters is > 0.
+R6 generated text: every random choice forked or symbolic, small term counts; the text of each path must be derivable in
+   the documented grammar (reference parser of C03).
 R5 like-term pair: in the generators that promise a pair of like terms, interpreted (E3) with every random draw as a
    fresh symbol and every coin flip forked, exactly two terms carry the focus variable and their exponent parts are
    the same draw.
@@ -430,4 +432,181 @@ def run(chk: Check) -> None:
     run_alphabet(chk, prog)
     run_complexity(chk, prog)
     run_like_pair(chk, prog)
+    run_text(chk, prog)
     chk.max_undecided = 0
+
+
+# --------------------------------------------------------------------------- R6 generated text is derivable
+def run_text(chk: Check, prog: Program) -> None:
+    """Every random choice is forked (coin flips, small integer ranges) or kept as a symbol (numbers, variables); the text
+    produced on each path is split into tokens (literals by the specification tokenizer, draws as Constant / Variable /
+    signed Constant) and must be derivable in the documented grammar (reference parser of C03)."""
+    from sa.parsecases import RefParser, Reject
+    chk.rule("C17.R6", "generated text is derivable in the documented grammar on every path of the random choices "
+             "(small term counts)", minimum=50)
+    mod = prog.module("problems")
+    cases = [("gen_simplify_multiple_terms", {"num_terms": 2})] + \
+            ([("gen_simplify_multiple_terms", {"num_terms": 3})] if chk.tier == "thorough" else []) + [
+        ("gen_binomial_times_binomial", {}), ("gen_binomial_times_monomial", {}),
+             ("gen_combine_terms_in_place", {"min_terms": 3, "max_terms": 3}),
+             ("gen_commute_haystack", {"min_terms": 3, "max_terms": 3}),
+             ("gen_move_around_blockers_one", {"number_blockers": 1}), ("gen_move_around_blockers_two", {"number_blockers": 1})]
+    cases = [c for c in cases if c]
+    OPMAP = {"+": "Plus", "-": "Minus", "*": "Multiply", "/": "Divide", "^": "Exponent", "(": "OpenParen", ")": "CloseParen",
+             "=": "Equal", "!": "Factorial"}
+    for name, kw in cases:
+        if name not in mod.functions:
+            raise AnalysisError(f"generator {name} vanished")
+        f = mod.functions[name]
+        for negative_numbers in (False, True):
+            def body(it: Interp, f=f, kw=kw, negative_numbers=negative_numbers):
+                it.draws = 0
+
+                def draw(tag):
+                    it.draws += 1
+                    return Opaque(f"{tag}#{it.draws}", truthy=True)
+
+                def h_randint(it2, path, args, kwargs):
+                    if all(isinstance(a, int) for a in args):
+                        lo, hi = args
+                        if lo > hi:
+                            raise AbsRaise("ValueError", it2.site, "empty range for randrange()")
+                        if hi - lo <= 5:
+                            return lo + it2.choose(hi - lo + 1, f"randint({lo},{hi})#{len(it2.decisions)}",
+                                                   [str(x) for x in range(lo, hi + 1)])
+                    return draw("int")
+                it.hooks["ext:random.randint"] = h_randint
+                it.hooks["ext:random.shuffle"] = lambda it2, path, args, kwargs: None
+                it.hooks["ext:random.uniform"] = lambda it2, path, args, kwargs: 0.5
+                it.hooks["ext:random.random"] = lambda it2, path, args, kwargs: 0.5
+
+                def h_choice(it2, path, args, kwargs):
+                    items = args[0].items
+                    return items[it2.choose(len(items), f"choice#{len(it2.decisions)}")]
+                it.hooks["ext:random.choice"] = h_choice
+
+                def h_rand_bool(it2, info, args, kwargs):
+                    pc = args[0] if args else kwargs.get("percent_chance", 50)
+                    if isinstance(pc, (int, float)):
+                        if pc >= 100:
+                            return True
+                        if pc <= 0:
+                            return False
+                    return it2.choose(2, f"coin#{len(it2.decisions)}", ["heads", "tails"]) == 0
+                it.hooks["mathy_core/problems.py:rand_bool"] = h_rand_bool
+                it.hooks["mathy_core/problems.py:rand_number"] = lambda it2, info, args, kwargs: draw("neg" if negative_numbers else "num")
+                it.hooks["mathy_core/problems.py:rand_var"] = lambda it2, info, args, kwargs: draw("var")
+                it.hooks["mathy_core/problems.py:rand_op"] = lambda it2, info, args, kwargs: draw("op")
+
+                def h_maybe_number(it2, info, args, kwargs):
+                    pc = args[0] if args else kwargs.get("percent_chance", 80)
+                    or_else = args[1] if len(args) > 1 else kwargs.get("or_else", "")
+                    if isinstance(pc, (int, float)) and pc >= 100:
+                        return draw("neg" if negative_numbers else "num")
+                    if (isinstance(pc, (int, float)) and pc <= 0) or or_else != "":
+                        return NotImplemented
+                    return draw("optneg" if negative_numbers else "optnum")
+                it.hooks["mathy_core/problems.py:maybe_number"] = h_maybe_number
+
+                def h_maybe_power(it2, info, args, kwargs):
+                    pc = args[0] if args else kwargs.get("percent_chance", 80)
+                    or_else = args[2] if len(args) > 2 else kwargs.get("or_else", "")
+                    if isinstance(pc, (int, float)) and pc >= 100:
+                        return draw("pow")
+                    if isinstance(pc, (int, float)) and pc <= 0:
+                        return or_else
+                    if or_else != "":
+                        return NotImplemented
+                    return draw("optpow")
+                it.hooks["mathy_core/problems.py:maybe_power"] = h_maybe_power
+
+                def h_get_rand_vars(it2, info, args, kwargs):
+                    n = args[0]
+                    if not isinstance(n, int):
+                        raise Unsupported("symbolic variable count")
+                    return Lst([draw("var") for _ in range(n)])
+                it.hooks["mathy_core/problems.py:get_rand_vars"] = h_get_rand_vars
+                return it.call_function(f, [], dict(kw))
+
+            n_paths = 0
+            for p in explore(prog, body, {"max_updepth": 0, "max_steps": 60000, "budget_soft": True, "time_budget": 40},
+                             max_paths=6000):
+                it = p.interp
+                n_paths += 1
+                label = f"{name}({', '.join(f'{k}={v}' for k, v in kw.items())}) {'negative numbers' if negative_numbers else 'pretty numbers'} :: {p.cond[-100:]}"
+                key = f"C17.R6:{name}"
+                if p.outcome == "bound":
+                    chk.undecided("C17.R6", key + ":budget", label, p.note, f.where)
+                    continue
+                if p.outcome == "raise":
+                    chk.fail("C17.R6", key + f":raises:{p.exc.exc}", label, f"generator raises {p.exc}",
+                             witness={"path": p.cond[-300:]}, where=f.where)
+                    continue
+                if not (isinstance(p.value, Tup) and len(p.value.items) == 2):
+                    chk.fail("C17.R6", key + ":shape", label, f"returns {p.value!r}", where=f.where)
+                    continue
+                text = p.value.items[0]
+                flat = _flatten_render(text) if isinstance(text, Render) else [text]
+                slots: List[List[List[str]]] = []
+                bad_char = None
+                for part in flat:
+                    if isinstance(part, str):
+                        i = 0
+                        while i < len(part):
+                            ch = part[i]
+                            if ch in " \t":
+                                i += 1
+                            elif ch.isdigit() or ch == ".":
+                                j = i
+                                while j < len(part) and (part[j].isdigit() or part[j] == "."):
+                                    j += 1
+                                slots.append([["Constant"]])
+                                i = j
+                            elif ch.isalpha():
+                                slots.append([["Variable"]])
+                                i += 1
+                            elif ch in OPMAP:
+                                slots.append([[OPMAP[ch]]])
+                                i += 1
+                            else:
+                                bad_char = ch
+                                break
+                    else:
+                        tag = part[1].split("#")[0]
+                        alts = {"var": [["Variable"]], "num": [["Constant"]], "neg": [["Constant"], ["Minus", "Constant"]],
+                                "optnum": [[], ["Constant"]], "optneg": [[], ["Constant"], ["Minus", "Constant"]],
+                                "pow": [["Exponent", "Constant"]], "optpow": [[], ["Exponent", "Constant"]],
+                                "op": [["Plus"], ["Minus"], ["Multiply"]], "int": [["Constant"]]}.get(tag)
+                        if alts is None:
+                            bad_char = f"<{part[1]}>"
+                        else:
+                            slots.append(alts)
+                    if bad_char:
+                        break
+                shown = render_str(flat)
+                if bad_char:
+                    chk.fail("C17.R6", key + f":char:{bad_char!r}", label, f"text {shown!r} contains {bad_char!r}",
+                             witness={"text": shown}, where=f.where)
+                    continue
+                import itertools as _it
+                total = 1
+                for sl in slots:
+                    total *= len(sl)
+                combos = _it.product(*slots) if total <= 20000 else _it.islice(_it.product(*slots), 20000)
+                rejected = None
+                for combo in combos:
+                    seq = [t for alt in combo for t in alt]
+                    toks = [(t, i) for i, t in enumerate(seq)]
+                    try:
+                        RefParser(toks).parse()
+                    except Reject as r:
+                        rejected = (seq, str(r))
+                        break
+                if rejected is None:
+                    chk.ok("C17.R6", key, label + f" -> {shown} ({min(total, 20000)} instantiations)", where=f.where)
+                else:
+                    chk.fail("C17.R6", key + ":not-derivable", label,
+                             f"the generated text {shown!r} has an instantiation that is not derivable in the documented "
+                             f"grammar ({rejected[1]}): the parser rejects it",
+                             witness={"text": shown, "tokens": rejected[0], "path": p.cond[-300:]}, where=f.where)
+            chk.analysed[f"text_paths_{name}_{kw}_{negative_numbers}"] = n_paths
